@@ -394,10 +394,12 @@ class SimulationAlgorithm(BaseSimulationAlgorithm):
                 np.random.normal(0.0, 1.0, self.param_study["patient_number"]),
                 dtype=torch.float32,
             )
-            individual_parameters_from_model_parameters[f"sources_{i}"] = (
-                individual_parameters_from_model_parameters[f"sources_{i}"]
-                - individual_parameters_from_model_parameters[f"sources_{i}"].mean()
-            ) / individual_parameters_from_model_parameters[f"sources_{i}"].std()
+            # standardisation needs at least two individuals (the std of one value is NaN)
+            if self.param_study["patient_number"] > 1:
+                individual_parameters_from_model_parameters[f"sources_{i}"] = (
+                    individual_parameters_from_model_parameters[f"sources_{i}"]
+                    - individual_parameters_from_model_parameters[f"sources_{i}"].mean()
+                ) / individual_parameters_from_model_parameters[f"sources_{i}"].std()
 
         patient_source_values_matrix = torch.stack(
             [
